@@ -263,6 +263,47 @@ def trStage0L : List Ex → List Ex
   | e :: es => trStage0 e :: trStage0L es
 end
 
+/-! ### what a quote means: hole filling
+
+`fillWith h t` is the template `t` with every splice `$m` replaced by the code `h m` — plain substitution of trees: no
+name of `t` or of the inserted code is changed (this is the *specification* of expansion, and the hand-written
+expansion of a macro call; `Proofs/Stage.lean::fills` proves that the combinator encoding computes exactly this). A
+nested quote becomes a block (as `translate_code` does); a macro call left in the template has no meaning. -/
+mutual
+def fillWith (h : Ex → Option Ex) : Ex → Option Ex
+  | .escape m => h m
+  | .bracket e => do let e' ← fillWith h e; pure (.block e')
+  | .macroExpand _ _ => none
+  | .flt b => some (.flt b)
+  | .int i => some (.int i)
+  | .str s => some (.str s)
+  | .selfL => some .selfL
+  | .now => some .now
+  | .sr => some .sr
+  | .var x => some (.var x)
+  | .app f args => do let f' ← fillWith h f; let a' ← fillWithL h args; pure (.app f' a')
+  | .lam ps b => do let b' ← fillWith h b; pure (.lam ps b')
+  | .letE x v b => do let v' ← fillWith h v; let b' ← fillWith h b; pure (.letE x v' b')
+  | .letT xs v b => do let v' ← fillWith h v; let b' ← fillWith h b; pure (.letT xs v' b')
+  | .letrec x v b => do let v' ← fillWith h v; let b' ← fillWith h b; pure (.letrec x v' b')
+  | .ite c t e => do let c' ← fillWith h c; let t' ← fillWith h t; let e' ← fillWith h e; pure (.ite c' t' e')
+  | .thenE a b => do let a' ← fillWith h a; let b' ← fillWith h b; pure (.thenE a' b')
+  | .assign l r => do let l' ← fillWith h l; let r' ← fillWith h r; pure (.assign l' r')
+  | .tup es => do let es' ← fillWithL h es; pure (.tup es')
+  | .proj e i => do let e' ← fillWith h e; pure (.proj e' i)
+  | .arr es => do let es' ← fillWithL h es; pure (.arr es')
+  | .block e => do let e' ← fillWith h e; pure (.block e')
+  | .feed x e => do let e' ← fillWith h e; pure (.feed x e')
+def fillWithL (h : Ex → Option Ex) : List Ex → Option (List Ex)
+  | [] => some []
+  | e :: es => do let e' ← fillWith h e; let es' ← fillWithL h es; pure (e' :: es')
+end
+
+/-- the splices of a template whose content is a macro-stage variable bound to code: `$x` stands for that code -/
+def holeOracle (ρ : List (String × Option Ex)) : Ex → Option Ex
+  | .var x => (ρ.lookup x).join
+  | _ => none
+
 /-! ### nested tuple patterns (`translate_let_tuple_pattern`)
 
 `Ex.letT` has flat patterns; a nested pattern `let ((a, b), c) = v` inside quoted code is flattened by the translator
